@@ -3,6 +3,7 @@ package main
 import (
 	"context"
 	"encoding/json"
+	"errors"
 	"fmt"
 	"runtime"
 	"strings"
@@ -102,6 +103,16 @@ func inPath(name string) []string {
 // value strings: "R(<name>)" + "-h"*   or   "S(<h>,<name>)" + "-h"*
 func outVal(v string) tr.Rec {
 	out := []string{}
+	// the core function's error "E(<name>)": as an error, or (ENC) as an already encoded response
+	for _, pre := range []string{"ERR:E(", "ENC:E("} {
+		if strings.HasPrefix(v, pre) && strings.HasSuffix(v, ")") {
+			by := "core-error"
+			if pre[1] == 'N' {
+				by = "encoded-core-error"
+			}
+			return tr.Rec{"by": by, "inp": inPath(v[len(pre) : len(v)-1]), "out": out}
+		}
+	}
 	k := strings.IndexByte(v, ')')
 	if k < 0 {
 		return tr.Rec{"by": "garbled:" + v, "inp": []string{}, "out": out}
@@ -183,7 +194,9 @@ func c15IO(h string, ctx context.Context, request []byte, next core.NextIOHandle
 	got := "ERR"
 	if err == nil {
 		got = miniParse(resp)
-		if len(resp) == 0 || resp[0] != 'R' {
+		if len(resp) > 0 && resp[0] == 'E' {
+			got = "ENC:" + got // an encoded error response with a nil error
+		} else if len(resp) == 0 || resp[0] != 'R' {
 			got = "ERR:" + string(resp)
 		}
 	} else {
@@ -321,6 +334,9 @@ func (x c15Client) call(ctx context.Context) string {
 	ctx = context.WithValue(ctx, verifTransportKey{}, verifTransportFn(func(ctx context.Context, request []byte) ([]byte, error) {
 		name := miniParse(request)
 		c15Cur.t.Emit(tr.Rec{"ev": "core", "call": call, "seen": inPath(name)})
+		if c15Cur.beh["core"] == "fail" {
+			return nil, errors.New("E(" + name + ")")
+		}
 		return miniResp("R(" + name + ")"), nil
 	}))
 	res, err := x.c.InvokeContext(ctx, "f", nil)
@@ -357,6 +373,9 @@ func (x c15Service) call(ctx context.Context) string {
 	if err != nil {
 		return "ERR:" + err.Error()
 	}
+	if len(resp) > 0 && resp[0] == 'E' {
+		return "ERR:" + miniParse(resp) // the outermost step (Handle) encodes the error the handlers have seen
+	}
 	if len(resp) == 0 || resp[0] != 'R' {
 		return "ERR:" + string(resp)
 	}
@@ -370,6 +389,9 @@ func c15NewSide(side string) c15Side {
 	s := core.NewService()
 	s.AddMissingMethod(func(ctx context.Context, name string, args []interface{}) ([]interface{}, error) {
 		c15Cur.t.Emit(tr.Rec{"ev": "core", "call": c15CallID(ctx), "seen": inPath(name)})
+		if c15Cur.beh["core"] == "fail" {
+			return nil, errors.New("E(" + name + ")")
+		}
 		return []interface{}{"R(" + name + ")"}, nil
 	})
 	return c15Service{s}
@@ -586,6 +608,9 @@ var c15Behs = []map[string]string{
 	{"i1": "alter", "i2": "pass", "i3": "alter", "o1": "alter", "o2": "pass", "pi": "alter", "po": "alter", "qi": "pass", "ti": "pass", "to": "alter"},
 	{"i1": "pass", "i2": "alter", "i3": "short", "o1": "pass", "o2": "short", "pi": "pass", "po": "alter", "qi": "alter", "ti": "alter", "to": "pass"},
 	{"i1": "alter", "i2": "short", "i3": "pass", "o1": "short", "o2": "alter", "pi": "alter", "po": "pass", "qi": "pass", "ti": "short", "to": "pass"},
+	// the core function fails: every handler sees the error on the way out (an altering handler leaves it alone)
+	{"core": "fail", "i1": "pass", "i2": "alter", "i3": "pass", "o1": "alter", "o2": "pass", "pi": "alter", "po": "pass", "qi": "pass", "ti": "pass", "to": "alter"},
+	{"core": "fail", "i1": "alter", "i2": "pass", "i3": "short", "o1": "pass", "o2": "alter", "pi": "pass", "po": "alter", "qi": "alter", "ti": "alter", "to": "pass"},
 }
 
 func runC15(a Args) tr.Summary {
